@@ -13,6 +13,7 @@ import (
 	netv1 "k8s.io/api/networking/v1"
 	gatewayv1beta1 "sigs.k8s.io/gateway-api/apis/v1beta1"
 	metav1 "k8s.io/apimachinery/pkg/apis/meta/v1"
+	"k8s.io/apimachinery/pkg/apis/meta/v1/unstructured"
 	"k8s.io/apimachinery/pkg/util/intstr"
 	"sigs.k8s.io/controller-runtime/pkg/client"
 	"sigs.k8s.io/yaml"
@@ -268,6 +269,20 @@ func (sc *Scenario) buildNetwork() []client.Object {
 				{Matches: []gatewayv1beta1.HTTPRouteMatch{{Path: &gatewayv1beta1.HTTPPathMatch{Type: &pm, Value: &p2}}}, BackendRefs: []gatewayv1beta1.HTTPBackendRef{ref("other-svc", nil)}},
 			}}}
 		out = append(out, route)
+	case sc.Traffic == "istio":
+		vs := &unstructured.Unstructured{Object: map[string]interface{}{
+			"apiVersion": "networking.istio.io/v1alpha3", "kind": "VirtualService",
+			"metadata": map[string]interface{}{"namespace": sc.NS, "name": sc.Name + "-vs", "labels": map[string]interface{}{"team": "web"}},
+			"spec": map[string]interface{}{
+				"hosts": []interface{}{svcName},
+				"http": []interface{}{
+					map[string]interface{}{"name": "other", "match": []interface{}{map[string]interface{}{"uri": map[string]interface{}{"prefix": "/other"}}},
+						"route": []interface{}{map[string]interface{}{"destination": map[string]interface{}{"host": "other-svc"}}}},
+					map[string]interface{}{"name": "main", "route": []interface{}{map[string]interface{}{"destination": map[string]interface{}{"host": svcName}}}},
+				},
+			},
+		}}
+		out = append(out, vs)
 	}
 	return out
 }
